@@ -124,12 +124,16 @@ func (c *stepCtx) runStep(k int, st map[string]interface{}) []string {
 		return c.stepPar(k, st)
 	case "gated":
 		return c.stepGated(k, st)
+	case "cmpout":
+		// the outputs of two earlier encode steps, side by side (the specification compares them)
+		a, b := c.outs[num(st, "a", -1)], c.outs[num(st, "b", -1)]
+		return []string{fmt.Sprintf(`"ev":"CmpOut","a":%d,"b":%d,"obs":{"out":"ok","oa":%s,"ob":%s}`, num(st, "a", -1), num(st, "b", -1), jbytes(a), jbytes(b))}
 	case "scale":
 		return []string{c.stepScale(st)}
 	case "repeat":
 		return []string{c.stepRepeat(st)}
 	case "legacy":
-		return []string{c.stepLegacy(st)}
+		return []string{c.stepLegacy(k, st)}
 	case "allocs":
 		return []string{c.stepAllocs(st)}
 	case "gc":
@@ -348,8 +352,14 @@ func (c *stepCtx) stepEncode(k int, st map[string]interface{}) string {
 			hi = i
 		}
 	}
-	head := fmt.Sprintf(`"ev":"Encode","ty":%q,"v":%d,%s"byval":%v,"buflen":%d,"bufcap":%d,"probe":%d,"obs":{"pre":%q,"post":%q,"dlo":%d,"dhi":%d,`,
-		ty, num(st, "v", 0), c.inlineVal(st, ty, holder), byval, blen, len(back), probe, pre, post, lo, hi)
+	evName := "Encode"
+	if boolean(st, "raw") {
+		// only a source of bytes for a later side-by-side comparison (cmpout): the value may hold what the value
+		// language does not describe (bool bytes other than 0 / 1 as the decoder stores them), so it is not judged here
+		evName = "EncodeRaw"
+	}
+	head := fmt.Sprintf(`"ev":%q,"ty":%q,"v":%d,%s"byval":%v,"buflen":%d,"bufcap":%d,"probe":%d,"obs":{"pre":%q,"post":%q,"dlo":%d,"dhi":%d,`,
+		evName, ty, num(st, "v", 0), c.inlineVal(st, ty, holder), byval, blen, len(back), probe, pre, post, lo, hi)
 	if pan != nil {
 		return head + panicObs(pan) + "}"
 	}
